@@ -5,6 +5,7 @@ comparisons are normalised to `gt(a,b)` / `ge(a,b)` / `eq` / `ne` with truth fol
 rendered as field paths of the receiver (`tx.gas_limit`) or nested call names."""
 from cfg import cfg_of, Origins, guards_of
 
+NUMERIC_CONSTS = False     # render named integer constants by value (set by rules that compare values)
 CMP_CALLS = {'lt': 'lt', 'le': 'le', 'gt': 'gt', 'ge': 'ge', 'eq': 'eq', 'ne': 'ne'}
 BIN_CMP = {'Lt': 'lt', 'Le': 'le', 'Gt': 'gt', 'Ge': 'ge', 'Eq': 'eq', 'Ne': 'ne'}
 
@@ -20,7 +21,7 @@ def canon_origin(f, og, o, depth=0):
         if r[1] is not None:
             nm = str(r[2]) if r[2] else ''
             tail = nm.split('::')[-1]
-            if tail and not tail[0].isdigit() and tail.isupper():
+            if tail and not tail[0].isdigit() and tail.isupper() and not NUMERIC_CONSTS:
                 return tail
             return str(r[1])
         return str(r[2]).split('::')[-1]
